@@ -116,3 +116,40 @@ Section Norm2.
         end
     end.
 End Norm2.
+
+(* ---- the encoder's view of a decoded value, computed (C05) ---------------------------------------- *)
+
+(* one reflection of v through heap h: maps and Dicts are iterated in stored order, or in reverse
+   (Go's runtime picks any order; Proofs/ReflectFacts.v proves the choice does not matter).
+   fuel bounds the nesting depth: None for cyclic / too deep values, which have no finite pickle *)
+Fixpoint reflect (fuel : nat) (rev_order : bool) (h : heap) (v : val) : option rval :=
+  match fuel with
+  | O => None
+  | S f =>
+      match reify v with
+      | Some r => Some r
+      | None =>
+          let pair := fun (e : val * val) =>
+            match reflect f rev_order h (fst e), reflect f rev_order h (snd e) with
+            | Some a, Some b => Some (a, b)
+            | _, _ => None
+            end in
+          let order := fun (es : list (val * val)) => if rev_order then rev es else es in
+          match v with
+          | VList _ l => option_map RList (map_opt (reflect f rev_order h) l)
+          | VTuple l => option_map RTuple (map_opt (reflect f rev_order h) l)
+          | VCall m n l => option_map (RCall m n) (map_opt (reflect f rev_order h) l)
+          | VMap id =>
+              match heap_get h id with
+              | Some (HMap es) => option_map RMap (map_opt pair (order es))
+              | _ => None
+              end
+          | VDict id =>
+              match heap_get h id with
+              | Some (HDict es) => option_map RDict (map_opt pair (order es))
+              | _ => None
+              end
+          | _ => None
+          end
+      end
+  end.
